@@ -50,7 +50,7 @@ fn target_str(t: &Target) -> String {
 fn ip_tok(h: &str) -> String { format!("ip={}:{}", hex(h.as_bytes()), h.parse::<IpAddr>().map_or("-".to_string(), |ip| hex(ip.to_string().as_bytes()))) }
 
 const IPS: &[&str] = &["10.0.0.1", "127.0.0.1", "0.0.0.0", "255.255.255.255", "::1", "::", "2001:db8::1", "2001:db8:0:0:1:0:0:1", "::ffff:10.1.2.3", "fe80::1", "2001:0db8:0000:0000:0000:0000:0000:0001", "FE80::A"];
-const BAD_HOSTS: &[&str] = &["", "localhost", "10.0.0", "10.0.0.256", "[::1]", "::1%eth0", "1.2.3.4:80", "mc.example.org", " 10.0.0.1", "2001:db8::g"];
+const BAD_HOSTS: &[&str] = &["", "localhost", "10.0.0", "10.0.0.256", "[::1]", "[10.0.0.7]", "10.0.0.7]", "[[2001:db8::7", "[2001:db8::7]", "::1%eth0", "1.2.3.4:80", "mc.example.org", " 10.0.0.1", "2001:db8::g"];
 
 fn gen_md(rng: &mut Rng, dups: bool) -> Vec<(String, String)> {
     let n = rng.below(4) as usize;
@@ -132,7 +132,7 @@ pub fn run(a: &Args) {
             let pick = if k > 0 { rng.below(k as u64) as usize } else { 0 };
             let custom = match mode {
                 1 => Some(None),
-                2 => Some(Some(pb::Target { identifier: if k > 0 && rng.chance(1, 2) { cands[pick].identifier.clone() } else { "x".into() }, address: if rng.chance(1, 3) { None } else { Some(pb::Address { hostname: if rng.chance(1, 2) { rng.pick(BAD_HOSTS).to_string() } else { rng.pick(IPS).to_string() }, port: *rng.pick(&[25565u32, 65536, 65535]) }) }, meta: vec![] })),
+                2 => Some(Some(pb::Target { identifier: if k > 0 && rng.chance(1, 2) { cands[pick].identifier.clone() } else if rng.chance(1, 3) { String::new() } else { "x".into() }, address: if rng.chance(1, 3) { None } else { Some(pb::Address { hostname: if rng.chance(1, 2) { rng.pick(BAD_HOSTS).to_string() } else { rng.pick(IPS).to_string() }, port: *rng.pick(&[25565u32, 65536, 65535]) }) }, meta: vec![] })),
                 _ => None,
             };
             // for "echo" the reply is built from the candidate by the harness's own conversion
